@@ -267,6 +267,38 @@ def specgen_stream(sh, backend, n, knobs_fn, mech_fn, tag, count="generated_desi
       G.unload(mod)
 
 
+HETERO_SRC = """from pymtl3 import *
+class HIfc(Interface):
+  def construct(s, n):
+    s.msg = InPort(n); s.rsp = OutPort(n)
+class HPass(Component):
+  def construct(s, n, k):
+    s.ifc = HIfc(n)
+    @update
+    def up(): s.ifc.rsp @= s.ifc.msg + k
+class HTop(Component):
+  def construct(s):
+    s.i0 = InPort({w0}); s.i1 = InPort({w1}); s.o0 = OutPort({w0}); s.o1 = OutPort({w1})
+    {decl}
+    {c0}.msg //= s.i0; {c1}.msg //= s.i1
+    s.o0 //= {c0}.rsp; s.o1 //= {c1}.rsp
+"""
+
+
+def hetero_stream(sh, backend, n, mech_fn):
+  """a LIST whose elements differ only in the widths of the ports INSIDE their interfaces (sub-components / interfaces of one
+  class, other parameter): either the translator refuses the list as an array, or every element keeps its own widths"""
+  for case in range(n):
+    rng = sh.rng("hetero", case)
+    w0, w1 = rng.sample([4, 8, 12, 16, 32], 2)
+    decl = f"s.subs = [HPass({w0}, 1), HPass({w1}, 2)]"; c0, c1 = "s.subs[0].ifc", "s.subs[1].ifc"
+    src = HETERO_SRC.format(w0=w0, w1=w1, decl=decl, c0=c0, c1=c1)
+    before = sh.counters.get("rejected_by_translator", 0)
+    r = directed(sh, backend, f"hetero-{case}", src, "HTop", mech_fn)
+    sh.count("hetero_list_designs")
+    if sh.counters.get("rejected_by_translator", 0) > before: sh.count("hetero_list_designs_refused")
+
+
 def directed(sh, backend, name, src, topname, mech_fn, ncyc=12):
   mod = G.load_source(src, "dir")
   try:
